@@ -251,7 +251,10 @@ func main() {
 			pf := strings.SplitN(parts[0], ".", 2)
 			ast.Inspect(f, func(n ast.Node) bool {
 				if c, ok := n.(*ast.CallExpr); ok {
-					if sel, ok := c.Fun.(*ast.SelectorExpr); ok {
+					if id, ok := c.Fun.(*ast.Ident); ok && len(pf) == 1 && id.Name == pf[0] {
+						c.Fun = ast.NewIdent(parts[1])
+					}
+					if sel, ok := c.Fun.(*ast.SelectorExpr); ok && len(pf) == 2 {
 						if id, ok := sel.X.(*ast.Ident); ok && id.Name == pf[0] && sel.Sel.Name == pf[1] {
 							c.Fun = ast.NewIdent(parts[1])
 						}
